@@ -129,9 +129,9 @@ MANIFEST_TEXT["C11"] = {
 PLAN["C13"] = {
     "pkg": "c13",
     "tests": [
-        {"name": "TestNumberRoundTrip", "quick": (400000, 4), "thorough": (16000000, 16)},
-        {"name": "TestDateTimeRoundTrip", "quick": (400000, 8), "thorough": (16000000, 16)},
-        {"name": "TestJSONRoundTrip", "quick": (200000, 4), "thorough": (8000000, 16)},
+        {"name": "TestNumberRoundTrip", "quick": (800000, 8), "thorough": (16000000, 16)},
+        {"name": "TestDateTimeRoundTrip", "quick": (800000, 8), "thorough": (16000000, 16)},
+        {"name": "TestJSONRoundTrip", "quick": (400000, 8), "thorough": (8000000, 16)},
         {"name": "TestEngineFieldDatetime", "quick": (24000, 4), "thorough": (1600000, 16)},
         {"name": "TestEngineFieldReparse", "quick": (16000, 4), "thorough": (800000, 16)},
     ],
@@ -241,7 +241,7 @@ MANIFEST_TEXT["C01"] = {
 PLAN["C05"] = {
     "pkg": "c05",
     "tests": [
-        {"name": "TestLimits", "quick": (16000, 8), "thorough": (1200000, 16)},
+        {"name": "TestLimits", "quick": (32000, 16), "thorough": (1200000, 16)},
     ],
     "budget": {"quick": 600, "thorough": 5400},
     "rule": SCENARIO_RULE + "Graphs are loop-heavy (self loops, backwards exits, A<->B enters, terminal enters), templates and inputs produce "
@@ -264,7 +264,7 @@ MANIFEST_TEXT["C05"] = {
 PLAN["C10"] = {
     "pkg": "c10",
     "tests": [
-        {"name": "TestRejectedResumes", "quick": (16000, 16), "thorough": (320000, 16)},
+        {"name": "TestRejectedResumes", "quick": (24000, 16), "thorough": (320000, 16)},
     ],
     "budget": {"quick": 600, "thorough": 5400},
     "rule": SCENARIO_RULE + "Resumes include deliberately unacceptable types for the current wait (and resumes of completed/failed sessions), "
@@ -307,8 +307,8 @@ MANIFEST_TEXT["C02"] = {
 PLAN["C03"] = {
     "pkg": "c03",
     "tests": [
-        {"name": "TestModifiers", "quick": (40000, 8), "thorough": (4000000, 16)},
-        {"name": "TestEngineContactEvents", "quick": (12000, 8), "thorough": (800000, 16)},
+        {"name": "TestModifiers", "quick": (80000, 8), "thorough": (4000000, 16)},
+        {"name": "TestEngineContactEvents", "quick": (24000, 8), "thorough": (800000, 16)},
     ],
     "budget": {"quick": 600, "thorough": 5400},
     "rule": "(i) direct: generated contact (any status, stale query-group membership, fields, 0-3 URNs, ticket) x modifier of all nine types "
@@ -332,8 +332,8 @@ MANIFEST_TEXT["C03"] = {
 PLAN["C06"] = {
     "pkg": "c06",
     "tests": [
-        {"name": "TestModifierGroupMembership", "quick": (40000, 8), "thorough": (3000000, 16)},
-        {"name": "TestEngineGroupMembership", "quick": (12000, 8), "thorough": (600000, 16)},
+        {"name": "TestModifierGroupMembership", "quick": (80000, 8), "thorough": (3000000, 16)},
+        {"name": "TestEngineGroupMembership", "quick": (24000, 8), "thorough": (600000, 16)},
     ],
     "budget": {"quick": 600, "thorough": 5400},
     "rule": "worlds with 1-4 query-based groups drawn from 33 queries over every queryable property (name, language, URNs/schemes, created_on, "
@@ -414,7 +414,7 @@ MANIFEST_TEXT["C18"] = {
 PLAN["C20"] = {
     "pkg": "c20",
     "tests": [
-        {"name": "TestInspectionCoversRuns", "quick": (12000, 16), "thorough": (800000, 16)},
+        {"name": "TestInspectionCoversRuns", "quick": (24000, 16), "thorough": (800000, 16)},
     ],
     "budget": {"quick": 600, "thorough": 5400},
     "rule": SCENARIO_RULE + "Flows use every action/router type that saves results or references assets (set_run_result, webhook, resthook, "
